@@ -901,6 +901,93 @@ impl Fl for f64 {
     }
 }
 
+/// float value tier: the same statement as values_q on f32 / f64, because a float is what a user's
+/// curve is made of and an exact type cannot show a NaN: control points are short dyadics (k/4) and
+/// the parameter is one of {0, -0.0, 1, 1/2, 1/4, 3/4, -1/2, 3/2, k/8}, so the Bernstein form and
+/// every reasonable evaluation order are exact or within a few ulps; anything not finite fails.
+fn values_float<F: Fl, C: CvR<F>>(sub: &mut Sub, cfg: &Config, idx: u64) {
+    let mut rng = Rng::for_case(&format!("values_float/{}/{}", C::NAME, <F as Fl>::TY), cfg.case_seed(), idx);
+    let (n, dim) = (C::DEG, C::DIM);
+    let mut pts: Vec<Vec<f64>> = (0..=n).map(|_| (0..dim).map(|_| rng.range_i64(-36, 36) as f64 / 4.0).collect()).collect();
+    match rng.below(8) {
+        0 => pts[1] = pts[0].clone(),
+        1 => pts[n - 1] = pts[n].clone(),
+        2 => {
+            for k in 1..=n {
+                pts[k] = pts[0].clone();
+            }
+        }
+        _ => {}
+    }
+    let t: f64 = match rng.below(10) {
+        0 => 0.0,
+        1 => -0.0,
+        2 => 1.0,
+        3 => 0.5,
+        4 => 0.25,
+        5 => 0.75,
+        6 => -0.5,
+        7 => 1.5,
+        _ => rng.range_i64(-4, 12) as f64 / 8.0,
+    };
+    let c = C::build(&mut |k, d| F::of(pts[k][d]));
+    let mut h = H64::new();
+    h.s(C::NAME).s(<F as Fl>::TY).f(t);
+    for p in &pts {
+        for x in p {
+            h.f(*x);
+        }
+    }
+    let desc = || format!("{} control points {:?}, t = {:?}", C::NAME, pts, t);
+    let api_e = format!("{}::evaluate", C::NAME);
+    let api_d = format!("{}::evaluate_derivative", C::NAME);
+    let api_s = format!("{}::split", C::NAME);
+    sub.saw(&api_e);
+    sub.saw(&api_d);
+    sub.saw(&api_s);
+    let to = |p: C::P| -> Vec<f64> { p.to_vec().into_iter().map(|x| x.into()).collect() };
+    let maxc = pts.iter().flatten().fold(1.0f64, |m, x| m.max(x.abs()));
+    let tol = F::SLACK * maxc * t.abs().max(1.0).powi(n as i32) * 8.0;
+    let near = |a: &[f64], b: &[f64]| a.iter().zip(b).all(|(x, y)| (x - y).abs() <= tol);
+    let mut fail: Option<(String, &'static str, String)> = None;
+    match guarded(|| (c.v_evaluate(F::of(t)), c.v_derivative(F::of(t)), c.v_split(F::of(t)))) {
+        Err(e) => fail = Some((api_e.clone(), "panic", format!("panicked: {}", e))),
+        Ok((ev, dv, halves)) => {
+            let (ev, dv) = (to(ev), to(dv));
+            let (be, bd) = (bern(&pts, t), bern_deriv(&pts, t));
+            let fp: Vec<Vec<f64>> = (0..=n).map(|k| to(halves[0].point(k))).collect();
+            let sp: Vec<Vec<f64>> = (0..=n).map(|k| to(halves[1].point(k))).collect();
+            if !near(&ev, &be) {
+                fail = Some((api_e.clone(), "value_differs_from_bernstein_form", format!("evaluate = {:?}, Bernstein form = {:?} (tolerance {:e})", ev, be, tol)));
+            } else if !dv.iter().zip(&bd).all(|(x, y)| (x - y).abs() <= tol * (n as f64) * 2.0) {
+                fail = Some((api_d.clone(), "derivative_differs_from_bernstein_derivative", format!("evaluate_derivative = {:?}, derivative of the Bernstein form = {:?}", dv, bd)));
+            } else if !near(&fp[n], &be) || !near(&sp[0], &be) {
+                fail = Some((api_s.clone(), "halves_do_not_meet_at_the_curve_point", format!("first half {:?}, second half {:?}, the curve point is {:?}", fp, sp, be)));
+            } else {
+                for u in [0.0, 0.5, 1.0] {
+                    let (a, b) = (bern(&fp, u), bern(&pts, t * u));
+                    let (c2, d2) = (bern(&sp, u), bern(&pts, t + (1.0 - t) * u));
+                    if !near(&a, &b) || !near(&c2, &d2) {
+                        fail = Some((api_s.clone(), "halves_do_not_reparametrize_the_curve", format!("u = {}: first half {:?} gives {:?} vs curve(t u) {:?}; second half {:?} gives {:?} vs curve(t + (1-t) u) {:?}", u, fp, a, b, sp, c2, d2)));
+                        break;
+                    }
+                }
+            }
+        }
+    }
+    match fail {
+        None => {
+            sub.sample(|| format!("{} [{}]: evaluate / evaluate_derivative / split agree with the Bernstein form", desc(), <F as Fl>::TY));
+            sub.held(h.get(), pts.iter().any(|p| *p != pts[0]));
+        }
+        Some((api, what, msg)) => {
+            let class = if what == "panic" { "panic" } else { "wrong_value" };
+            let v = violation(PROP, sub, &api, <F as Fl>::TY, class, what, format!("{}: {}", desc(), msg), cfg.case_seed(), idx);
+            sub.violated(v);
+        }
+    }
+}
+
 const CIRCLE_PARAMS: u64 = 10_001;
 const RADIUS_TOL: f64 = 3.0e-4;
 
@@ -1124,6 +1211,26 @@ fn main() {
             values_q::<QuadraticBezier3<Q>>(s, &cfg, i);
             values_q::<CubicBezier2<Q>>(s, &cfg, i);
             values_q::<CubicBezier3<Q>>(s, &cfg, i);
+        });
+        rep.push(s);
+    }
+    {
+        let nv = cfg.n(1_000, 100_000);
+        let proto = Sub::new(
+            "values_float",
+            "f32 and f64: control points short dyadics k/4 (|k| <= 36, an eighth of the curves with coincident control points), parameter t from {0, -0.0, 1, 1/2, 1/4, 3/4, -1/2, 3/2, k/8 in [-1/2, 3/2]}: evaluate, evaluate_derivative and split (halves meet at the curve point and re-parametrize the curve at u in {0, 1/2, 1}) against the oracle's f64 Bernstein form within 512 eps * max|coordinate| * max(1,|t|)^degree; a NaN or infinity fails every comparison; non-trivial = control points not all equal; distinct by hash of type, control points and t",
+        )
+        .with_floor(nv * 4)
+        .require(&["QuadraticBezier2::split", "QuadraticBezier3::split", "CubicBezier2::split", "CubicBezier3::split", "QuadraticBezier2::evaluate", "CubicBezier3::evaluate_derivative"]);
+        let s = run_cases(&cfg, proto, nv, |s, i| {
+            values_float::<f32, QuadraticBezier2<f32>>(s, &cfg, i);
+            values_float::<f32, QuadraticBezier3<f32>>(s, &cfg, i);
+            values_float::<f32, CubicBezier2<f32>>(s, &cfg, i);
+            values_float::<f32, CubicBezier3<f32>>(s, &cfg, i);
+            values_float::<f64, QuadraticBezier2<f64>>(s, &cfg, i);
+            values_float::<f64, QuadraticBezier3<f64>>(s, &cfg, i);
+            values_float::<f64, CubicBezier2<f64>>(s, &cfg, i);
+            values_float::<f64, CubicBezier3<f64>>(s, &cfg, i);
         });
         rep.push(s);
     }
